@@ -22,7 +22,8 @@ PROP = "C11"
 RULE = (
     "object types whose tested field draws (name, alias) from {a_b, aB, a_b1} x {no alias, x_y, xY, class, $ref, "
     "'with space'} x alias override in {True, False} x class aliaser in {none, upper, prefix} x dynamic aliaser in "
-    "{identity, camelCase, custom} x route in {parameter, settings.aliaser}; shapes: plain, nested, flattened, with "
+    "{identity, camelCase, custom} x route in {parameter, settings.aliaser} x class in {plain, Generic reached through its "
+    "specialisation C[int]}; shapes: plain, nested, flattened, with "
     "dependent_required, with a field validator and a validator yielding get_alias(self).f. Expected external name = "
     "dyn(class_aliaser(alias or name)) (class aliaser skipped when override=False). Views compared: key consumed by "
     "deserialize (every other candidate spelling is rejected with missing/unexpected at the right keys), key emitted by "
@@ -48,7 +49,7 @@ DYN = {"id": dyn_id, "camel": to_camel_case, "custom": dyn_custom}
 GQL_NAME = re.compile(r"^[_A-Za-z][_0-9A-Za-z]*$")
 
 
-def class_source(k: int, fname: str, alias: Optional[str], override: bool, cal: Optional[str]) -> str:
+def class_source(k: int, fname: str, alias: Optional[str], override: bool, cal: Optional[str], generic: bool = False) -> str:
     md = []
     if alias is not None:
         md.append(f"alias({alias!r}" + ("" if override else ", override=False") + ")")
@@ -57,9 +58,11 @@ def class_source(k: int, fname: str, alias: Optional[str], override: bool, cal: 
     mds = " | ".join(md)
     deco = f"@alias(_{cal})\n" if cal else ""
     fdecl = f"    {fname}: int = field(" + (f"metadata={mds}" if mds else "") + ")"
+    gbase = "(Generic[_TG])" if generic else ""
+    ct = f"C{k}[int]" if generic else f"C{k}"
     return f'''
 {deco}@dataclass
-class C{k}:
+class C{k}{gbase}:
 {fdecl}
     other: int = field(default=0)
     @validator({fname})
@@ -83,13 +86,14 @@ class C{k}:
         if SWITCH.get("other_yielding"):
             yield get_alias(self).other, "other yielded"
 dependent_required({{"other": [{fname!r}]}}, owner=C{k})
+CT{k} = {ct}
 @dataclass
 class H{k}:
-    inner: C{k}
+    inner: {ct}
 @dataclass
 class F{k}:
     z: int
-    inner: C{k} = field(metadata=flatten)
+    inner: {ct} = field(metadata=flatten)
 def q{k}() -> C{k}:
     return C{k}(7)
 def m{k}(arg: C{k}) -> int:
@@ -101,6 +105,7 @@ def a{k}(p_q: Annotated[int, validators_metadata(_arg_check){", " + md[0] if ali
 
 PRE = '''
 from apischema.objects import get_alias
+_TG = TypeVar("_TG")
 def _arg_check(v):
     if v == 13:
         raise ValidationError("unlucky")
@@ -134,8 +139,11 @@ def locs(e: ValidationError) -> List[Tuple[tuple, str]]:
 
 
 def check_config(mod, k, cfg, st: infra.Stats):
-    fname, alias, override, cal = cfg
-    C, H, Fl = getattr(mod, f"C{k}"), getattr(mod, f"H{k}"), getattr(mod, f"F{k}")
+    fname, alias, override, cal, *gen = cfg
+    generic = bool(gen and gen[0])
+    # a generic class is reached through its specialisation C[int], as generic classes are used
+    C, H, Fl = getattr(mod, f"CT{k}"), getattr(mod, f"H{k}"), getattr(mod, f"F{k}")
+    Craw = getattr(mod, f"C{k}")
     for dyn, route in itertools.product(DYN, ("param", "settings")):
         ext = expected_name(fname, alias, override, cal, dyn)
         other_ext = DYN[dyn](CLASS_AL[cal]("other") if cal else "other")
@@ -161,7 +169,7 @@ def check_config(mod, k, cfg, st: infra.Stats):
                     viol("deserialize", f"value not set: {obj!r}")
             except ValidationError as e:
                 viol("deserialize", f"{{{ext!r}: 1}} rejected: {locs(e)}")
-                obj = C(1)
+                obj = Craw(1)
             for cand in candidates(fname, alias, cal):
                 if cand == ext or cand == other_ext:
                     continue
@@ -262,7 +270,12 @@ def check_config(mod, k, cfg, st: infra.Stats):
             except ValidationError as e:
                 viol("nested_or_flattened_deserialize", f"{locs(e)}")
             # GraphQL
-            if route == "param" and GQL_NAME.match(ext) and GQL_NAME.match(other_ext):
+            if generic:
+                # the unspecialised class is one more view of the same fields
+                s0 = serialize(Craw, obj, **kw)
+                if set(s0) != {ext, other_ext}:
+                    viol("serialize_unspecialised", f"keys {sorted(s0)}")
+            if route == "param" and not generic and GQL_NAME.match(ext) and GQL_NAME.match(other_ext):
                 check_graphql(mod, k, cfg, dyn, ext, other_ext, viol, st)
         except Exception as e:
             st.violation(dict(base, signature={"kind": "exception", "exc": type(e).__name__}, what=f"{cfg} {dyn} {route}: {e!r}"[:300]))
@@ -275,7 +288,7 @@ def check_graphql(mod, k, cfg, dyn, ext, other_ext, viol, st):
     import graphql
     from apischema.graphql import graphql_schema
 
-    fname, alias, override, cal = cfg
+    fname, alias, override, cal, *_ = cfg
     q, m, a = getattr(mod, f"q{k}"), getattr(mod, f"m{k}"), getattr(mod, f"a{k}")
     schema = graphql_schema(query=[q, a], mutation=[m], aliaser=DYN[dyn])
     st.count("graphql_schemas")
@@ -309,7 +322,7 @@ def check_graphql(mod, k, cfg, dyn, ext, other_ext, viol, st):
 
 
 def configs():
-    return list(itertools.product(NAMES, ALIASES, (True, False), (None, "upper", "prefix")))
+    return list(itertools.product(NAMES, ALIASES, (True, False), (None, "upper", "prefix"), (False, True)))
 
 
 BATCH = 12
